@@ -446,3 +446,97 @@ Section IterFacts.
     destruct m as [|m]; [lia|]. cbn. destruct (step s) as [s'|r']; auto. apply IH; auto. lia.
   Qed.
 End IterFacts.
+
+(* loops: invariants and termination by a decreasing measure *)
+Section IterLoops.
+  Context {St R : Type} (step : St -> St + R) (Inv : St -> Prop).
+
+  Lemma iter_nat_inv :
+    (forall s s', Inv s -> step s = inl s' -> Inv s') ->
+    forall n s r, Inv s -> iter_nat step n s = inr r -> exists s1, Inv s1 /\ step s1 = inr r.
+  Proof.
+    intros Hpres. induction n as [|n IH]; intros s r Hs H; cbn [iter_nat] in H; [discriminate|].
+    destruct (step s) as [s'|r'] eqn:E.
+    - apply (IH s'); auto. eapply Hpres; eauto.
+    - injection H as <-. exists s. auto.
+  Qed.
+
+  Lemma iter_nat_term (mu : St -> Z) :
+    (forall s s', Inv s -> step s = inl s' -> Inv s' /\ 0 <= mu s' < mu s) ->
+    forall n s, Inv s -> 0 <= mu s -> mu s < Z.of_nat n -> exists r, iter_nat step n s = inr r.
+  Proof.
+    intros Hdec. induction n as [|n IH]; intros s Hs H0 Hn; [lia|]. cbn [iter_nat].
+    destruct (step s) as [s'|r'] eqn:E; [|eauto].
+    destruct (Hdec s s' Hs E) as [Hs' Hmu]. apply IH; auto; lia.
+  Qed.
+End IterLoops.
+
+(* ---------- further list facts used by the Vn proofs ---------- *)
+
+Lemma maxN_ge p x : In x p -> (x <= maxN p)%N.
+Proof.
+  induction p as [|y t IH]; [intros []|]. unfold maxN. cbn [fold_right]. fold (maxN t).
+  intros [->|H]; [lia|]. specialize (IH H). lia.
+Qed.
+
+Lemma In_items_gen : forall (ws : list Z) s (w : Z) id, In (w, id) (combine ws (seq s (length ws))) ->
+  (s <= id)%nat /\ nth_opt ws (id - s) = Some w.
+Proof.
+  induction ws as [|w0 ws IH]; intros s w id H; cbn [length seq combine] in H; [destruct H|].
+  destruct H as [E|H].
+  - injection E as -> ->. split; [lia|]. now rewrite Nat.sub_diag.
+  - apply IH in H as [H1 H2]. split; [lia|].
+    replace (id - s)%nat with (S (id - S s)) by lia. exact H2.
+Qed.
+Lemma In_items ws w id : In (w, id) (items_of ws) -> nth_opt ws id = Some w.
+Proof. intros H. apply In_items_gen in H as [_ H]. now rewrite Nat.sub_0_r in H. Qed.
+
+Lemma set_nth_twice {A} (l : list A) i u v : set_nth (set_nth l i u) i v = set_nth l i v.
+Proof. revert i; induction l as [|x t IH]; intros [|i]; cbn; auto. f_equal. apply IH. Qed.
+
+Lemma nth_opt_ext {A} (l l' : list A) : (forall i, nth_opt l i = nth_opt l' i) -> l = l'.
+Proof.
+  revert l'; induction l as [|x t IH]; intros [|y t'] H; auto.
+  - specialize (H 0%nat). discriminate.
+  - specialize (H 0%nat). discriminate.
+  - f_equal; [specialize (H 0%nat); cbn in H; congruence|]. apply IH. intros i. apply (H (S i)).
+Qed.
+
+Lemma nth_opt_repeat {A} (a : A) k q : (q < k)%nat -> nth_opt (repeat a k) q = Some a.
+Proof. revert q; induction k as [|k IH]; intros [|q] H; cbn; try lia; auto. apply IH. lia. Qed.
+
+(* moving the weight [w] of element [id] from part [a] to part [b] *)
+Lemma loads_move ws p k id w a b la lb :
+  nth_opt ws id = Some w -> nth_opt p id = Some (N.of_nat a) -> a <> b ->
+  nth_opt (loads ws p k) a = Some la -> nth_opt (loads ws p k) b = Some lb ->
+  loads ws (set_nth p id (N.of_nat b)) k = set_nth (set_nth (loads ws p k) a (la - w)) b (lb + w).
+Proof.
+  intros Hw Hp Hab Ha Hb.
+  assert (Hak : (a < k)%nat) by (apply nth_opt_Some in Ha; now rewrite loads_length in Ha).
+  assert (Hbk : (b < k)%nat) by (apply nth_opt_Some in Hb; now rewrite loads_length in Hb).
+  rewrite nth_opt_loads in Ha, Hb by assumption. injection Ha as <-. injection Hb as <-.
+  apply nth_opt_ext. intros q. destruct (Nat.lt_ge_cases q k) as [Hq|Hq].
+  - rewrite nth_opt_loads by exact Hq. rewrite (load_set_nth ws p id w _ _ _ Hw Hp).
+    destruct (Nat.eq_dec q b) as [->|Hqb].
+    + rewrite nth_opt_set_nth_same by (rewrite set_nth_length, loads_length; exact Hbk).
+      destruct (N.eqb_spec (N.of_nat a) (N.of_nat b)); [lia|]. rewrite N.eqb_refl. f_equal. lia.
+    + rewrite nth_opt_set_nth_other by auto.
+      destruct (N.eqb_spec (N.of_nat b) (N.of_nat q)); [lia|].
+      destruct (Nat.eq_dec q a) as [->|Hqa].
+      * rewrite nth_opt_set_nth_same by (rewrite loads_length; exact Hak). rewrite N.eqb_refl. f_equal. lia.
+      * rewrite nth_opt_set_nth_other by auto. rewrite nth_opt_loads by exact Hq.
+        destruct (N.eqb_spec (N.of_nat a) (N.of_nat q)); [lia|]. f_equal. lia.
+  - rewrite !nth_opt_None; auto; rewrite ?set_nth_length, loads_length; lia.
+Qed.
+
+Lemma ids_below_le k p : ids_below k p = true <-> Forall (fun x => (x < N.of_nat k)%N) p.
+Proof.
+  unfold ids_below. rewrite forallb_forall, Forall_forall.
+  split; intros H x Hx; specialize (H x Hx); now apply N.ltb_lt.
+Qed.
+
+Lemma Forall_set_nth {A} (Q : A -> Prop) l i v : Forall Q l -> Q v -> Forall Q (set_nth l i v).
+Proof.
+  intros H Hv. apply Forall_forall. intros x Hx. apply set_nth_In in Hx as [->|Hx]; auto.
+  rewrite Forall_forall in H. auto.
+Qed.
